@@ -23,6 +23,9 @@ type advCase struct {
 	// hello after all (the plan is made from a probe hello; GREASE values are drawn afresh
 	// per connection), i.e. the property's precondition "not offered" does not hold.
 	void func(ch *wire.ClientHello) bool
+	// ccfg: extra client configuration (e.g. a Config.NextProtos that differs from the
+	// spec's ALPN list: what counts is what went on the wire)
+	ccfg func(c *tls.Config)
 }
 
 func rewriteServerHello(f func(sh *wire.ServerHello) bool) func(bool, []byte) []byte {
@@ -175,6 +178,23 @@ func TestC12(t *testing.T) {
 				}
 				return ""
 			}})
+			// (6b') same, but the protocol IS in Config.NextProtos (not on the wire: parrots send the spec's list)
+			add(advCase{name: "tls13_unoffered_alpn(in Config.NextProtos)", max: tls.VersionTLS13, plan: func() *tls.VerifPlan {
+				return &tls.VerifPlan{RewriteOut: rewriteEE(func(exts []wire.Ext) []wire.Ext { return setExt(exts, wire.ExtALPN, alpnBody("verif-not-offered")) })}
+			}, ccfg: func(c *tls.Config) { c.NextProtos = []string{"verif-not-offered", "h2"} },
+				void: func(ch *wire.ClientHello) bool {
+					for _, p := range ch.ALPN {
+						if p == "verif-not-offered" {
+							return true
+						}
+					}
+					return false
+				}, value: func(cs tls.ConnectionState) string {
+					if cs.NegotiatedProtocol == "verif-not-offered" {
+						return "ALPN verif-not-offered"
+					}
+					return ""
+				}})
 			// (7) compression method 1
 			add(advCase{name: "tls13_compression_1", max: tls.VersionTLS13, plan: func() *tls.VerifPlan {
 				return &tls.VerifPlan{RewriteOut: rewriteServerHello(func(sh *wire.ServerHello) bool { sh.Compression = 1; return true })}
@@ -259,6 +279,28 @@ func TestC12(t *testing.T) {
 				}
 				return ""
 			}})
+			add(advCase{name: "tls12_unoffered_alpn(in Config.NextProtos)", max: tls.VersionTLS12, plan: func() *tls.VerifPlan {
+				return &tls.VerifPlan{RewriteOut: rewriteServerHello(func(sh *wire.ServerHello) bool {
+					if sh.Exts == nil {
+						sh.Exts = []wire.Ext{}
+					}
+					sh.SetExt(wire.ExtALPN, alpnBody("verif-not-offered"))
+					return true
+				})}
+			}, ccfg: func(c *tls.Config) { c.NextProtos = []string{"http/1.1", "verif-not-offered"} },
+				void: func(ch *wire.ClientHello) bool {
+					for _, p := range ch.ALPN {
+						if p == "verif-not-offered" {
+							return true
+						}
+					}
+					return false
+				}, value: func(cs tls.ConnectionState) string {
+					if cs.NegotiatedProtocol == "verif-not-offered" {
+						return "ALPN verif-not-offered"
+					}
+					return ""
+				}})
 			// (7) compression method 1 in TLS 1.2
 			notOffered := true
 			for _, c := range ch.Compression {
@@ -294,7 +336,7 @@ func TestC12(t *testing.T) {
 			h.CEnd.SetReadDeadline(time.Now().Add(time.Second))
 			delivered, readErr = io.ReadAtLeast(h.Client, buf, 1)
 		}}
-		h := RunCase(tg, GridCase{Server: scfg, Plan: j.c.plan()}, "example.test", nil, opts)
+		h := RunCase(tg, GridCase{Server: scfg, Plan: j.c.plan()}, "example.test", j.c.ccfg, opts)
 		defer func() {
 			h.Client.Close()
 			h.Server.Close()
@@ -342,7 +384,7 @@ func TestC12(t *testing.T) {
 	})
 	r.Count("case_kinds", int64(len(caseKinds)))
 	r.Floor("rejected", 500)
-	r.Floor("case_kinds", 12)
+	r.Floor("case_kinds", 14)
 }
 
 // compressCertPlan replaces the server's Certificate message by a valid
